@@ -1,6 +1,7 @@
 (* Pinned statements of C14 (generated once by tools/mkpins.py from coq/props/C14.v, then committed). *)
 From DV Require Import Model.Base Model.Parser Model.Header Model.Readers Model.Uncompress Model.Mutate
-  Model.Gen Model.Text Spec.NameSpec Spec.RecordSpec Proofs.Hoare Proofs.SynthTotal Proofs.NameText props.C14.
+  Model.Gen Model.Text Spec.NameSpec Spec.RecordSpec Proofs.Hoare Proofs.SynthTotal Proofs.NameText
+  Spec.PacketSpec Spec.PlainSpec Proofs.WalkSkip Proofs.PlainWf Proofs.InsertSpec Proofs.HeaderInv Proofs.WalkInv Proofs.RenameCursor Proofs.ReadersLabels Proofs.QuestionSpec props.C14.
 Check (C14_from_str_total : forall name zone, nopanic (raw_name_from_str name zone)).
 Print Assumptions C14_from_str_total.
 Check (C14_from_str_len : forall raw name zone w,
@@ -48,3 +49,19 @@ Check (C14_ldh_roundtrip : forall ls, Forall ldh_label ls -> length (wire_of_lab
   raw_name_to_str (wire_of_labels ls) 0 = Ok (dotted ls) /\
   cname_l (wire_of_labels ls) 0 ls (length (wire_of_labels ls))).
 Print Assumptions C14_ldh_roundtrip.
+Check (C14_set_name_reads_back : forall ls v sec l1 r x l2 n s' qls qt lA lN lR,
+  dinv v -> Forall (fun l : bytes => l <> []) ls -> bytes_ok (wire_of_labels ls) ->
+  reading (pp_packet v) qls qt lA lN lR -> sec = SAnswer \/ sec = SNameServers \/ sec = SAdditional ->
+  sec_list sec lA lN lR = l1 ++ (r, x) :: l2 -> is_opt r = false ->
+  m_set_raw_name (wire_of_labels ls) (v, cur_on sec r n) = (s', Ok tt) ->
+  it_name (fst s') (snd s') = Ok (ascii_lowercase (dotted ls)) /\
+  it_copy_raw_name (fst s') (snd s') = Ok (wire_of_labels ls, length (wire_of_labels ls))).
+Print Assumptions C14_set_name_reads_back.
+Check (C14_text_reads_back : forall ls v sec l1 r x l2 n s' qls qt lA lN lR w,
+  Forall ldh_label ls -> ls <> [] -> length (wire_of_labels ls) <= 253 ->
+  raw_name_from_str (dotted ls) None = Ok w ->
+  dinv v -> reading (pp_packet v) qls qt lA lN lR -> sec = SAnswer \/ sec = SNameServers \/ sec = SAdditional ->
+  sec_list sec lA lN lR = l1 ++ (r, x) :: l2 -> is_opt r = false ->
+  m_set_raw_name w (v, cur_on sec r n) = (s', Ok tt) ->
+  it_name (fst s') (snd s') = Ok (ascii_lowercase (dotted ls))).
+Print Assumptions C14_text_reads_back.
